@@ -78,11 +78,14 @@ def simulate(num, depth, seed, scratch):
 
 def base_lines(name, perturb=None):
     """Abstract atom lines (atomtable format) of the first model of a corpus file; coordinates in
-    integer milli-Angstrom.  perturb = (seed, sigma_milli) jitters every atom (a new base)."""
+    integer milli-Angstrom.  perturb = (seed, sigma_milli) jitters every atom (a new base);
+    perturb = ("anon", 0) gives every residue a name the reader cannot resolve ("N7"), so that the base
+    letter of each residue has to be detected from its atoms (MD / modelling output looks like this)."""
     from rnapolis import parser
     with open(os.path.join(lib.REPO, "tests", name)) as f:
         s = parser.read_3d_structure(f)
-    rng = random.Random(perturb[0]) if perturb else None
+    anon = bool(perturb) and perturb[0] == "anon"
+    rng = random.Random(perturb[0]) if perturb and not anon else None
     lines = []
     for r in s.residues:
         if r.auth is None or len(r.auth.chain) != 1 or not (-900 < r.auth.number < 8900) or len(r.auth.name) > 3:
@@ -96,7 +99,7 @@ def base_lines(name, perturb=None):
             if rng:
                 xyz = [v + int(round(rng.gauss(0, perturb[1]))) for v in xyz]
             lines.append({"m": 1, "het": 0, "ch": r.auth.chain, "num": r.auth.number, "ic": r.auth.icode or "",
-                          "rn": r.auth.name, "an": a.name, "alt": "", "occ": 100, "x": xyz[0], "y": xyz[1], "z": xyz[2]})
+                          "rn": "N7" if anon else r.auth.name, "an": a.name, "alt": "", "occ": 100, "x": xyz[0], "y": xyz[1], "z": xyz[2]})
     return lines
 
 
@@ -126,16 +129,49 @@ def chain_map(lines):
     return {c: pool[i] for i, c in enumerate(names)}
 
 
+def icode_pattern(lines, k):
+    """k-th order-preserving renumbering that introduces insertion codes: for some residues n (no insertion
+    code, followed in the same chain by n+1 without one) the residue n+1 becomes n^A.  Returns a map
+    (chain, number, icode) -> (number, icode); identity where nothing changes.  k = 0: identity."""
+    keys = []
+    for ln in lines:
+        key = (ln["ch"], ln["num"], ln["ic"])
+        if not keys or keys[-1] != key:
+            keys.append(key)
+    out = {key: (key[1], key[2]) for key in keys}
+    if k == 0:
+        return out
+    rng = random.Random(4242 + k)
+    present = set(keys)
+    i = 0
+    while i + 1 < len(keys):
+        a, b = keys[i], keys[i + 1]
+        if (a[0] == b[0] and a[2] == "" and b[2] == "" and b[1] == a[1] + 1 and (a[0], a[1], "A") not in present
+                and rng.random() < 0.35):
+            out[b] = (a[1], "A")
+            i += 2
+        else:
+            i += 1
+    return out
+
+
 class Presenter:
     def __init__(self, lines):
         self.lines = lines
         self.cmap = chain_map(lines)
         self.base_obj = _read_text("cif", atomtable.emit("cif", lines))
+        self.icp = {}
+
+    def icodes(self, k):
+        if k not in self.icp:
+            self.icp[k] = icode_pattern(self.lines, k)
+        return self.icp[k]
 
     def deliver(self, st):
         """st = dict(motion=[(kind,id)...], atomOrder, chains, shift, fmt) -> (Structure3D, inverse chain map)"""
         inv = {v: k for k, v in self.cmap.items()} if st["chains"] else {c: c for c in self.cmap}
         dn = SHIFTS[st["shift"]]
+        icp = self.icodes(st.get("icodes", 0))
         if st["fmt"] in ("pdb", "cif"):
             out = []
             for g in _groups(self.lines):
@@ -152,7 +188,8 @@ class Presenter:
                         else:
                             raise lib.MachineryError("random rotation cannot be delivered as text")
                     n = dict(ln)
-                    n.update(x=int(v[0]), y=int(v[1]), z=int(v[2]), num=ln["num"] + dn,
+                    num2, ic2 = icp[(ln["ch"], ln["num"], ln["ic"])]
+                    n.update(x=int(v[0]), y=int(v[1]), z=int(v[2]), num=num2 + dn, ic=ic2,
                              ch=self.cmap[ln["ch"]] if st["chains"] else ln["ch"])
                     out.append(n)
             return _read_text(st["fmt"], atomtable.emit(st["fmt"], out)), inv
@@ -172,7 +209,9 @@ class Presenter:
         def relabel(x):
             if x is None:
                 return None
-            return dataclasses.replace(x, chain=self.cmap[x.chain] if st["chains"] else x.chain, number=x.number + dn)
+            num2, ic2 = icp[(x.chain, x.number, x.icode or "")]
+            return dataclasses.replace(x, chain=self.cmap[x.chain] if st["chains"] else x.chain, number=num2 + dn,
+                                       icode=ic2 or None)
 
         residues = []
         for ri, r in enumerate(self.base_obj.residues):
@@ -239,7 +278,7 @@ def record(case):
         _PRES[key] = (pr, [_nano(M["min_margin"]["distance"]), _nano(M["min_margin"]["angle"])])
     pr, margin = _PRES[key]
     c["margin"] = margin
-    st = {"motion": [], "atomOrder": 0, "chains": 0, "shift": 0, "fmt": case["fmt0"]}
+    st = {"motion": [], "atomOrder": 0, "chains": 0, "shift": 0, "icodes": 0, "fmt": case["fmt0"]}
     states = []
 
     def snap():
@@ -262,6 +301,8 @@ def record(case):
             st["chains"] = a
         elif op == "ShiftNumbers":
             st["shift"] = a
+        elif op == "InsertCodes":
+            st["icodes"] = a
         elif op == "SwitchFormat":
             st["fmt"] = ["obj", "pdb", "cif"][a]
         snap()
